@@ -16,17 +16,18 @@ let ledger_of (tbl : (int * int, BinNums.coq_Z) Hashtbl.t) : FLedger.ledger =
 (* ------------------------------------------------------------------------------------------ *)
 (* english auctions                                                                            *)
 type eobs = { found : bool; sell : string; buy : string; bidder : int; nbids : int; bid_end : string;
-              end_ : string; status : string; specials : string array; (* MOD COLL EXT TM AUC1 x (bid, lot) *)
+              end_ : string; status : string; nactive : string;  (* generation 1: user biddings in the active store; -1 otherwise *)
+              specials : string array; (* MOD COLL EXT TM AUC1 NF x (bid, lot) *)
               bals : (string * string) array }
 
 let parse_eobs nb toks =
   match toks with
-  | f :: sell :: buy :: bidder :: nbids :: bid_end :: end_ :: status :: rest ->
+  | f :: sell :: buy :: bidder :: nbids :: bid_end :: end_ :: status :: nactive :: rest ->
     let arr = Array.of_list rest in
-    if Array.length arr <> 10 + 2 * nb then failwith "obs: wrong number of balances";
-    { found = bool_of_tok f; sell; buy; bidder = int_of_string bidder; nbids = int_of_string nbids; bid_end; end_; status;
-      specials = Array.sub arr 0 10;
-      bals = Array.init nb (fun i -> (arr.(10 + 2 * i), arr.(11 + 2 * i))) }
+    if Array.length arr <> 12 + 2 * nb then failwith "obs: wrong number of balances";
+    { found = bool_of_tok f; sell; buy; bidder = int_of_string bidder; nbids = int_of_string nbids; bid_end; end_; status; nactive;
+      specials = Array.sub arr 0 12;
+      bals = Array.init nb (fun i -> (arr.(12 + 2 * i), arr.(13 + 2 * i))) }
   | _ -> failwith "bad obs"
 
 let variant_of = function
@@ -41,12 +42,15 @@ type ecase = {
   mutable accepted : (BinNums.coq_Z * BinNums.coq_Z) list;
   mutable pending : (string list) option;      (* the op line awaiting its observation *)
   mutable estep : int; mutable refunds : int; sigb : Buffer.t;
+  mutable esm_closed : bool;   (* the IMPLEMENTATION's record of a generation-1 auction vanished at a hook run under the emergency shutdown *)
+  mutable esm_refunds : int;   (* emergency-shutdown closes with a standing bid *)
   fac : BinNums.coq_Z; edur : BinNums.coq_Z; ebdur : BinNums.coq_Z; sell0 : BinNums.coq_Z; buy0 : BinNums.coq_Z; now0 : BinNums.coq_Z }
 
 (* MOD, COLL, EXT, TM, AUC1 = the generation-1 auction module account: the lot source of the
    generation-2 surplus close (the real start put the lot there).  For V1S / V1D that account IS
-   the auction's own module account MOD: it is observed twice and diffed once (as MOD) *)
-let special_ids = [| -1; -2; -3; -4; -5 |]
+   the auction's own module account MOD: it is observed twice and diffed once (as MOD).
+   NF = the collector's net-fee record of (app, cmst): modelled (and diffed) for generation 1 only *)
+let special_ids = [| -1; -2; -3; -4; -5; -6 |]
 
 let eledger (c : ecase) (o : eobs) : FLedger.ledger =
   let t = Hashtbl.create 32 in
@@ -63,7 +67,9 @@ let impl_auction (c : ecase) (o : eobs) : English.auction =
       bid_end = z_of_string o.bid_end; end_ = z_of_string o.end_; status = z_of_string o.status;
       factor = c.fac; dur = c.edur; bid_dur = c.ebdur }
   else match c.ia with
-    | Some a -> English.set_closed { a with English.bids = c.accepted }
+    | Some a ->
+      if c.esm_closed then English.set_esm_closed { a with English.bids = c.accepted }
+      else English.set_closed { a with English.bids = c.accepted }
     | None -> failwith "auction never observed"
 
 let eng_check (c : ecase) (o : eobs) =
@@ -100,11 +106,37 @@ let eng_check (c : ecase) (o : eobs) =
         c.st <- Some s'
       | Base.Err code -> bump ("tick:close-failed-err" ^ zs code)
       | Base.Panic -> bump "tick:close-panic")
+   | Some ("op" :: "esm" :: now :: tm :: res :: []) ->
+     (* the block hook with the app's emergency shutdown on *)
+     bump ("op:esm:" ^ c.vname);
+     Buffer.add_string c.sigb "e;";
+     let s = (match c.st with Some s -> s | None -> assert false) in
+     mm "result" "ok" res;
+     (* judged on the implementation: its record of a generation-1 auction was there before this hook and is gone after it *)
+     (match pre_obs with
+      | Some po when po.found && not o.found && English.is_v1 c.v -> c.esm_closed <- true
+      | _ -> ());
+     (match English.step s (English.TickEsm (z_of_string now, bool_of_tok tm)) with
+      | Base.Ok s' ->
+        let st' = zs (fst s').English.status and st = zs (fst s).English.status in
+        if st' = "3" && st <> "3" then begin
+          (match (fst s).English.bidder with
+           | Some _ -> c.esm_refunds <- c.esm_refunds + 1; bump ("esm:closed-with-standing-bid:" ^ c.vname)
+           | None -> bump ("esm:closed-without-bid:" ^ c.vname))
+        end
+        else if st = "3" || st = "2" then bump "esm:hook-after-the-end"
+        else if st' = "2" then bump "esm:gen2-closed-as-usual"
+        else if zs (fst s').English.end_ <> zs (fst s).English.end_ then bump "esm:gen2-restart-as-usual"
+        else bump "esm:gen2-not-due";
+        c.st <- Some s'
+      | Base.Err code -> bump ("esm:close-failed-err" ^ zs code)
+      | Base.Panic -> bump "esm:close-panic")
    | Some l -> failwith ("bad op line: " ^ S.concat " " l)
    | None -> ());
   (* ---- diff the projection ---- *)
   let (ma, ml) = (match c.st with Some s -> s | None -> assert false) in
-  let closed = zs ma.English.status = "2" in
+  let closed = English.ended ma in
+  if English.is_v1 c.v then mm "active_biddings" (zs (English.active_biddings ma)) o.nactive;
   mm "found" (tok_of_bool (not closed)) (tok_of_bool o.found);
   if o.found && not closed then begin
     mm "sell" (zs ma.English.sell) o.sell; mm "buy" (zs ma.English.buy) o.buy;
@@ -116,7 +148,7 @@ let eng_check (c : ecase) (o : eobs) =
   end;
   Array.iteri (fun i acct ->
       (* the tokenmint account is compared too: bids are moved there and burnt *)
-      if not (acct = -5 && English.is_v1 c.v) then begin
+      if not (acct = -5 && English.is_v1 c.v) && not (acct = -6 && not (English.is_v1 c.v)) then begin
         mm (Printf.sprintf "bal[%d,bid]" acct) (zs (ml (zi acct) (zi c.bd))) o.specials.(2 * i);
         mm (Printf.sprintf "bal[%d,lot]" acct) (zs (ml (zi acct) (zi c.ld))) o.specials.(2 * i + 1)
       end) special_ids;
@@ -147,8 +179,24 @@ let eng_check (c : ecase) (o : eobs) =
       | None -> ())
    | _ -> ());
   let is_closed = zs ia.English.status = "2" in
+  let is_esm = zs ia.English.status = "3" in
+  (* the emergency-shutdown end: the lot went back to the collector and onto the net-fee record.
+     specials: 1 = MOD lot, 3 = COLL lot, 11 = NF lot *)
+  if is_esm then begin
+    if not (English.holds_C11_esm_lot ia (z_of_string o0.specials.(1)) (z_of_string o0.specials.(3)) (z_of_string o0.specials.(11))
+              (z_of_string o.specials.(1)) (z_of_string o.specials.(3)) (z_of_string o.specials.(11))) then
+      pf "holds_C11_esm_lot" (Printf.sprintf "module_lot0=%s_now=%s_collector_lot0=%s_now=%s_netfees0=%s_now=%s_lot_back=%s"
+                                o0.specials.(1) o.specials.(1) o0.specials.(3) o.specials.(3) o0.specials.(11) o.specials.(11)
+                                (zs (English.lot_back ia ia.English.lot_denom)))
+  end;
   Array.iteri (fun i (b, l) ->
       let (b0, l0) = o0.bals.(i) in
+      if is_esm then begin
+        (* NO bidder has the lot, NO bidder has lost anything *)
+        if not (English.holds_C11_esm ia (zi i) (z_of_string b0) (z_of_string l0) (z_of_string b) (z_of_string l)) then
+          pf "holds_C11_esm" (Printf.sprintf "acct=%d_bid0=%s_lot0=%s_bid1=%s_lot1=%s_standing=%s" i b0 l0 b l
+                                (match ia.English.bidder with Some w -> zs w ^ ":" ^ zs ia.English.buy | None -> "none"))
+      end else
       if is_closed then begin
         if not (English.holds_C11_winner ia (zi i) (z_of_string b0) (z_of_string l0) (z_of_string b) (z_of_string l)) then
           pf "holds_C11_winner" (Printf.sprintf "acct=%d_bid0=%s_lot0=%s_bid1=%s_lot1=%s" i b0 l0 b l)
@@ -156,7 +204,7 @@ let eng_check (c : ecase) (o : eobs) =
         if not (English.holds_C11_open ia (zi i) (z_of_string b0) (z_of_string l0) (z_of_string b) (z_of_string l)) then
           pf "holds_C11_open" (Printf.sprintf "acct=%d_bid0=%s_lot0=%s_bid1=%s_lot1=%s" i b0 l0 b l)
       end) o.bals;
-  if is_closed then bump "obs:closed" else bump "obs:open";
+  if is_esm then bump "obs:esm-closed" else if is_closed then bump "obs:closed" else bump "obs:open";
   c.ia <- Some ia; c.prev <- Some o; c.pending <- None
 
 (* ------------------------------------------------------------------------------------------ *)
@@ -380,7 +428,7 @@ let run (path : string) =
   let cur_e : ecase option ref = ref None and cur_l : lcase option ref = ref None in
   let end_case () =
     (match !cur_e with
-     | Some c -> incr cases; if c.refunds >= 1 then incr nontrivial;
+     | Some c -> incr cases; if c.refunds >= 1 || c.esm_refunds >= 1 then incr nontrivial;
        Hashtbl.replace distinct (Digest.string (c.vname ^ Buffer.contents c.sigb)) ()
      | None -> ());
     (match !cur_l with
@@ -394,7 +442,7 @@ let run (path : string) =
         end_case ();
         bump ("case:" ^ v);
         cur_e := Some { id; v = variant_of v; vname = v; nb = int_of_string nb; bd = int_of_string bd; ld = int_of_string ld;
-                        st = None; ia = None; prev = None; init = None; accepted = []; pending = None; estep = 0; refunds = 0;
+                        st = None; ia = None; prev = None; init = None; accepted = []; pending = None; estep = 0; refunds = 0; esm_closed = false; esm_refunds = 0;
                         sigb = Buffer.create 256; fac = z_of_string fac; edur = z_of_string dur; ebdur = z_of_string bdur;
                         sell0 = z_of_string sell0; buy0 = z_of_string buy0; now0 = z_of_string now0 }
       | "case" :: id :: "lim" :: nb :: cf :: wf :: na :: rest ->
